@@ -753,6 +753,20 @@ def schema_family(prop, tier, seed):
         # 2. the oracle: the shipped schema files evaluated by TLC on every document
         text, tagged_docs, unknown = schema2tla.prepare(vlib.REPO, [json.loads(json.dumps(d["doc"])) for d in docs])
         bad = sorted(set(u.split(":")[0] for u in unknown) & (DRAFT07_UNIMPLEMENTED | {"patternProperties"}))
+        if bad and prop == "C18":
+            # the oracle is undefined, but C18 can still be decided on the real validator alone:
+            # every library-valid document must survive the round trips with the builtin schema installed
+            write_rows(docs, f3)
+            res18, _ = run_harness("oracle-c18", ["-cases", f3, "-seed", seed], timeout=3000)
+            tool_errors(res18["mismatches"])
+            mine = tagged(res18["mismatches"], prop)
+            for m in mine:
+                m["replay_sub"] = "oracle-c18"
+            cov = {"evaluations": res18["evaluations"], "distinct_nontrivial": res18["distinct_nontrivial"], "states": sum(r.distinct for r in rs),
+                   "transitions": sum(r.generated for r in rs), "traces_validated_against_impl": res18["evaluations"],
+                   "oracle": "unavailable: the schema files use %s, which spec/Schema.tla does not implement; only the validator-installed round trips were decided" % bad,
+                   "rule": "library-valid documents written/read/validated with the builtin schema installed as Spec validator", "samples": [docs[0]["doc"]], "exhaustive": False}
+            return {"level": "model_checking", "coverage": cov, "mismatches": mine, "replay_with": "oracle-c18", "assumptions": []}
         if bad:
             raise ToolFailure("the schema files use keywords the TLA+ evaluator does not cover: %s" % bad)
         ft = scratch_file("schema-tagged.ndjson")
@@ -879,3 +893,73 @@ def c09(prop, tier, seed):
                          ["TLA+ contributes the write/read state machine and the enumeration; it says nothing about YAML scalar resolution",
                           "the string dimension is a pool plus seeded random UTF-8, not the string space; invalid UTF-8 is not generated"])
     return out
+
+
+# ---------------------------------------------------------------------------------------
+# C08: nothing untrusted crashes or hangs the library (exploration level)
+
+@check("C08")
+def c08(prop, tier, seed):
+    import shutil, subprocess
+    vlib.build_harness()
+    mism = []
+    cov_runs = []
+    total_eval = total_nt = 0
+    # 1. the structured corpus of the other families, replayed under the panic/hang monitor
+    fams = [("oracle-qname", [("QNameStrings", "QNameStrings_boundary.cfg", {}), ("QNameParts", "QNameParts_quick.cfg", {})]),
+            ("replay-annot", [("MCAnnotations", "Annotations_quick.cfg", {})]),
+            ("replay-edits", [("MCEdits", "Edits_quick.cfg", {})]),
+            ("replay-cache", [("MCCacheSeq", "CacheSeq_q3.cfg", {}), ("MCCacheSeq", "CacheSeq_t2.cfg", {})]),
+            ("oracle-doc", [("MCSpecDoc", "SpecDoc_quick.cfg" if tier == "quick" else "SpecDoc_thorough.cfg", {})])]
+    if tier == "thorough":
+        fams.append(("oracle-doc", [("MCSpecDoc", "SpecDoc_sim.cfg", dict(simulate="num=10", depth=4, seed=seed, workers=4))]))
+        fams.append(("replay-inject", [("MCInject", "Inject_quick.cfg", {})]))
+    for sub, runs in fams:
+        o = generic_replay(prop, tier, seed, runs, sub, "exploration", "", [])
+        mism += o["mismatches"]
+        total_eval += o["coverage"]["evaluations"]
+        total_nt += o["coverage"]["distinct_nontrivial"]
+        cov_runs.append({"harness": sub, "cases": o["coverage"]["evaluations"]})
+    # 2. the lexical perturbations + the live watcher goroutine
+    tr = run_tlc("MCSpecDoc", "SpecDoc_quick.cfg", deadlock=True, timeout=3000)
+    f1, f2 = scratch_file("c08-tokens.ndjson"), scratch_file("c08-docs.ndjson")
+    mdir = vlib.mkscratch("c08-marker")
+    write_rows(tr.rows, f1)
+    try:
+        h = vlib.build_harness()
+        vlib.sh([h, "schema-docs", "-cases", f1, "-out", f2, "-max-mutations", "600" if tier == "quick" else "6000"], env=vlib.goenv(), timeout=1800)
+        env = vlib.goenv()
+        env["VERIF_TMP"] = vlib.scratch_root()
+        p = subprocess.run([h, "nocrash", "-cases", f2, "-seed", str(seed), "-workers", "10", "-marker-dir", mdir] + (["-limit", "1200"] if tier == "quick" else []),
+                           env=env, stdout=subprocess.PIPE, stderr=subprocess.PIPE, text=True, timeout=3000)
+        lines = [l for l in p.stdout.split("\n") if l.strip()]
+        if p.returncode in (0, 1) and lines:
+            res = json.loads(lines[-1])
+            mism += tagged(res["mismatches"], prop)
+            total_eval += res["evaluations"]
+            total_nt += res["distinct_nontrivial"]
+            cov_runs.append({"harness": "nocrash", "cases": res["evaluations"], "entry_point_calls": res["steps"]})
+        elif "panic:" in p.stderr or "fatal error:" in p.stderr or "SIGSEGV" in p.stderr:
+            culprits = []
+            for fn in sorted(os.listdir(mdir))[:4]:
+                culprits.append(open(os.path.join(mdir, fn), errors="replace").read()[:400])
+            mism.append({"what": "process-crashed", "props": [prop], "case": -1, "step": -1, "want": "an error",
+                         "got": p.stderr[-1500:], "note": "inputs being processed when the process died: " + json.dumps(culprits), "row": None})
+        else:
+            raise ToolFailure("harness nocrash failed rc=%d\n%s" % (p.returncode, p.stderr[-2000:]))
+    finally:
+        for f in (f1, f2):
+            if os.path.exists(f):
+                os.unlink(f)
+        shutil.rmtree(mdir, ignore_errors=True)
+    cov = {"evaluations": total_eval, "distinct_nontrivial": total_nt, "runs": cov_runs,
+           "rule": "the structured corpus of the QName, Annotations, Edits, CacheSeq and SpecDoc generators replayed under recover() and a watchdog; "
+                   "plus, for every token document and JSON-level mutation (null/number/object/array at every slot), 20 byte-level variants (YAML "
+                   "encoding, anchors/aliases/merge keys/tags/multi-documents, 6 truncations, 64 KiB scalar, 200-deep and 5000-deep nesting, "
+                   "self-referencing aliases, binary junk, 1e400) through ParseSpec, ReadSpec (.json/.yaml), the schema entry points, "
+                   "MinimumRequiredVersion, WriteSpec, injection of every loadable device into 6 hostile OCI specs, the parser and annotation "
+                   "helpers, and a live auto-refresh cache whose watcher goroutine must still refresh afterwards. distinct = distinct rows",
+           "samples": ["{\"deviceNodes\": [null]}", "truncated / anchored / 5000-deep variants of every document"], "exhaustive": False}
+    return {"level": "exploration", "coverage": cov, "mismatches": mism, "replay_with": "",
+            "assumptions": ["not a universal statement over byte strings: a crash that needs a byte pattern no model slot or listed perturbation describes is missed",
+                            "a hang is a call that does not return within 20-60 s"]}
